@@ -251,10 +251,15 @@ PROPS = {
     "C19": {
         "module": "MantraDex.Properties.C19", "ns": "MantraDex.C19",
         "theorems": ["newton_ok_is_near_fixpoint", "newton_zero_fuel", "stableswap_y_is_near_fixpoint", "G_strictMono", "G_mono", "dCert_unique",
-                     "dCert_sound", "bisect_flips", "ss_output_le_reserve"],
+                     "dCert_sound", "bisect_flips", "ss_output_le_reserve",
+                     "yStep_near_fixpoint_brackets_root", "root_floor_unique", "calculateStableswapY_eq", "stableswap_y_within_one_of_root",
+                     "stableswap_y_never_wrong"],
+        "extra_modules": ["MantraDex.Properties.C19Y"],
         "streams": {"swapmath": (6000, 300000), "mintmath": (3000, 150000)},
         "what": "the Newton loops return a value only when two successive iterates are within the threshold, else ConvergeError (never a non-converged "
-                "value); the y-solver returns near-fixpoints of its integer step; an accepted stableswap quote never exceeds the ask reserve; the exact "
+                "value); the y-solver returns near-fixpoints of its integer step, AND (C19Y) every value calculate_stableswap_y returns is floor(root) or "
+                "floor(root)+1 of the quadratic y^2+(b-d)y-c with the coefficients c, b, d it computed from the pool (sign-change characterisation, unique): the "
+                "solver never settles on a wrong answer and rounds by at most one unit of the highest precision; an accepted stableswap quote never exceeds the ask reserve; the exact "
                 "reference is sound: the invariant polynomial G is strictly increasing, the bisection returns the flip point, the certificate "
                 "G(d)<=0<G(d+1) pins floor(D) uniquely. The accuracy clause (|quote-exact| <= 2+2 units) is NOT proved: it is evaluated per generated case "
                 "against the exact reference (monSsQuote) inside the supported range — and fails rarely by a small factor (known finding F-13)",
